@@ -44,13 +44,14 @@ CORPORA = {
     "round8": dict(model="MC_Round8", quick={}, thorough={}, profiles=DEV_REL, place="end"),
     "custom": dict(model="MC_Custom", quick=dict(MaxSize=96), thorough=dict(MaxSize=96), profiles=DEV_REL, place="both"),
     "proto": dict(model="MC_Proto", quick=dict(Depth=3), thorough=dict(Depth=5), profiles=DEV_REL, place="end"),
+    "big": dict(model="MC_Big", quick=dict(MaxPow=20), thorough=dict(MaxPow=21), profiles=DEV_REL, place="both"),
     "load": dict(model="MC_Load", quick=dict(MaxT=72), thorough=dict(MaxT=160), profiles=DEV_REL, place="both"),
     "walk": dict(model="MC_Walk", quick=dict(MaxT=32), thorough=dict(MaxT=40), profiles=DEV_REL, place="both"),
 }
 
 # property -> list of corpus names; nontrivial rule used for evidence
 ALL_CFGS = ["dev+b", "rel+b", "dev-b", "rel-b"]
-PARSE_CORPORA = ["adv", "load", "walk", "fields", "getters", "dst", "sized", "fb", "rsdp", "efi", "elf", "str",
+PARSE_CORPORA = ["adv", "big", "load", "walk", "fields", "getters", "dst", "sized", "fb", "rsdp", "efi", "elf", "str",
                  "hload", "hwalk", "hfields", "hgetters", "hdst", "find", "cks", "refslice8", "typeids"]
 
 CHECKS = {
@@ -85,7 +86,7 @@ CHECKS = {
     "C09": dict(corpora=["hwalk", "hdst", "hfields", "hgetters", "hload"],
                 rule="all lazily chosen header-tag sequences (4 type/flag pairs, sizes 0..remaining+9), every header-tag kind at every "
                      "declared size 0..40, conformant tags; every call checked for crash/hang and extents inside the declared header"),
-    "C10": dict(corpora=["hload", "cks"],
+    "C10": dict(corpora=["hload", "cks", "big"],
                 sweeps=[("checksum", None, 1, 1)],
                 rule="all (length 0..MaxLen, magic right/one-bit-off/zero, checksum right/+1/-1/zero, both architectures) + null; "
                      "calc_checksum on 54 boundary (magic, arch, length) triples judged on 16-bit limbs; all 2^32 lengths x both architectures "
@@ -111,9 +112,10 @@ CHECKS = {
     "C05": dict(corpora=["dst", "fb", "hdst"],
                 rule="every variable-length kind x every declared size 0..base+3*elem+DstExtra and three sizes beyond the region, "
                      "marker bytes in padding and in the neighbouring tag"),
-    "C02": dict(corpora=["load"],
+    "C02": dict(corpora=["load", "big"],
                 rule="cases = all (total size, reserved word, last-8-bytes type/size) in bounds + null pointer; "
-                     "non-trivial = every case (each has a distinct specified outcome class or size)"),
+                     "non-trivial = every case (each has a distinct specified outcome class or size); structural regions with total sizes "
+                     "around every power of two from 128 bytes to 1 MiB (2 MiB thorough), end tag right / wrong"),
     "C03": dict(corpora=["walk", "proto", "load"],
                 rule="cases = all lazily chosen header sequences (type in {0,3,99}, size 0..remaining+9) of regions up to MaxT; "
                      "each drained by a tag iterator, a mid-walk clone and the module iterator; histories: all interleavings of length Depth of "
